@@ -91,9 +91,16 @@ func init() {
 		"all cancellation instants, what net/http returns when a context ends mid-read, whether the handler's context is cancelled by the transport.")
 
 	prop("C06", "Whatever a server sends, the client fails safely with a coded non-OK error",
-		[]string{"code-nonzero", "non200-is-error", "http-code-tables", "header-canonical", "coded-wrapper-exhaustive", "ctx-first-wrapper", "percent-agreement", "no-explicit-panic"},
+		[]string{"code-nonzero", "non200-is-error", "http-code-tables", "header-canonical", "multi-value", "coded-wrapper-exhaustive", "ctx-first-wrapper", "percent-agreement", "no-explicit-panic"},
 		"(1) every code operand of NewError/errorf and every store to Error.code is a non-zero constant, a table function with only non-zero constant returns, or a wire value excluded from zero on its path (and narrowed to 32 bits before the test); JSON-decoded Error objects are repaired before they escape; "+
 			"(2) every non-200 path of a validateResponse returns a non-nil error whose fallback code comes from the protocol's own total HTTP-status table; (3) JSON-decoded trailer keys are canonicalised and direct header indexes use canonical constants, so lookups are case-insensitive; "+
 			"(4) every error-returning method of the client conn wrapper passes through wrapIfUncoded and the transport error handed to SetError is always coded; (5) the percent decoder's guards keep its slice in range for every input and no explicit panic exists.",
 		"absence of all run-time panics (nil dereference in general, HTTPClients returning (nil, nil)), termination, arbitrary bodies beyond the framing guards.")
+
+	prop("C05", "Bytes on the wire conform to the Connect, gRPC and gRPC-Web protocols",
+		[]string{"spec-constants", "terminator-once", "http-200-only", "content-type-echo", "compress-flag-wiring", "compression-roles", "unary-error-status", "header-canonical", "http-code-tables", "percent-agreement", "carrier-pairing", "timeout-tables"},
+		"(1) wire constants (flag bits, header names, content-type prefixes, JSON keys, code names, \"0\" OK status, gRPC HTTP-status and timeout-unit tables) equal the specifications - a deviation shared by both ends is invisible to a connect-go<->connect-go suite; "+
+			"(2) a gRPC response carries exactly one Grpc-Status (one status encoding per Close exit, one Set and no Add per path, user metadata merged before it, one carrier per exit, body-written flag set before the first write), a Connect stream exactly one end-of-stream envelope; "+
+			"(3) only the pre-protocol guards and the unary Connect error path write an explicit HTTP status; (4) the response Content-Type echoes the request's; (5) the compressed flag is set only right after compressing with a non-nil pool whose name is the negotiated header value, and the unary Content-Encoding only on the compressing path; a compressed unary error body is decompressed; (6) a unary Connect error is JSON under the code's 4xx/5xx status.",
+		"full decodability by a third-party implementation, protobuf/JSON payload bytes, acceptance of every conformant peer encoding (casing, padding), the Connect code->HTTP table's exact entries (it changed between spec revisions; only range and totality are checked).")
 }
